@@ -56,6 +56,18 @@ def check(ctx, rule, fn, handles, what="the file"):
                 ok = cn in g.reach([wn]) and wn not in g.reach([cn], edge_ok=lambda a, b, lab: True) or (cn in g.reach([wn]) and wn not in g.reach([cn]))
                 # a write inside a loop may precede and (syntactically) follow itself; what matters: no write after close
                 ctx.check(rule, fn, cn in g.reach([wn]) and wn not in g.reach([cn]), f"write-before-close:{h}@{w.lineno - fn.node.lineno}", f"`{A.unparse(w)[:40]}` happens before the publishing close and never after it", node=w)
+        # nothing else opens the published path for writing: `open(path, "w")` (a lock file, a "touch") truncates the live file
+        # before the replacement is complete
+        ctor = next((v for t, v, st in A.assignments(fn.node) if isinstance(t, ast.Name) and t.id == h and isinstance(v, ast.Call) and v.args), None)
+        if ctor is not None:
+            live = A.unparse(ctor.args[0])
+            for c in A.calls(fn.node, into_nested=True):
+                if (dotted(c.func) or "").split(".")[-1] == "open" and c.args and A.unparse(c.args[0]) == live:
+                    mode = A.const(c.args[1]) if len(c.args) > 1 else next((A.const(k.value) for k in c.keywords if k.arg == "mode"), "r")
+                    writes_live = isinstance(mode, str) and any(ch in mode for ch in "wa+x")
+                    ctx.check(rule, fn, not writes_live, f"live-path-opened-for-writing:{h}", f"`{A.unparse(c)[:50]}` only reads {what}",
+                              f"{fn.qual} opens `{live}` itself with mode {mode!r} next to the atomic handle: {what} is truncated / modified in place before the replacement "
+                              f"is complete, so a crash or a concurrent reader sees an empty or partial file", node=c)
         # failure handling
         cleanup = []
         for x in A.body_walk(fn.node):
